@@ -467,7 +467,13 @@ var specials = []float64{
 }
 
 func genFloat(r *vh.Rng) float64 {
-	switch r.Pick(34, 20, 10, 8, 8, 6, 6, 4, 4) {
+	switch r.Pick(34, 20, 10, 8, 8, 6, 6, 4, 4, 8) {
+	case 9: // the representation boundary itself
+		f := p2(1, 53) - float64(r.Intn(3))
+		if r.Bool() {
+			f = -f
+		}
+		return f
 	case 0:
 		return specials[r.Intn(len(specials))]
 	case 1:
@@ -620,8 +626,8 @@ func genCase(r *vh.Rng) Case {
 			a = float64(r.Intn(259)-2) + 0.5
 			a = math.Float64frombits(math.Float64bits(a) + uint64(r.Intn(3)) - 1)
 		}
-		if (op == "UInc" || op == "UDec") && r.Chance(30) { // results next to +/-2^53
-			a = p2(1, 53) - float64(r.Intn(4))
+		if (op == "UInc" || op == "UDec") && r.Chance(40) { // results on and next to +/-2^53
+			a = p2(1, 53) - float64(r.Intn(3))
 			if r.Bool() {
 				a = -a
 			}
@@ -634,9 +640,9 @@ func genCase(r *vh.Rng) Case {
 		case "BShl", "BSar", "BShr":
 			b = genShiftCount(r)
 		case "BAdd", "BSub":
-			if r.Chance(15) { // sums landing next to 2^53
-				a = p2(1, 53) - float64(r.Intn(4))
-				b = float64(r.Intn(6))
+			if r.Chance(30) { // sums landing on and next to 2^53
+				a = p2(1, 53) - float64(r.Intn(3))
+				b = float64(r.Intn(4))
 				if op == "BSub" {
 					b = -b
 				}
@@ -671,7 +677,12 @@ func main() {
 	defer w.Close()
 	switch m.Cmd {
 	case "gen":
-		r := vh.NewRng(m.Seed)
+		// vh.NewRng(seed) starts at seed*gamma, and the driver hands consecutive seeds to its parallel
+		// generator processes: their streams would be one stream shifted by one draw.  Scramble first.
+		z := m.Seed + 0x9E3779B97F4A7C15
+		z = (z ^ (z >> 30)) * 0xBF58476D1CE4E5B9
+		z = (z ^ (z >> 27)) * 0x94D049BB133111EB
+		r := vh.NewRng(z ^ (z >> 31))
 		for i := 0; i < m.N; i++ {
 			c := genCase(r)
 			vh.Guard(w, vh.MustJSON(c), failTerm, 20, func() vh.Record { return runCase(c) })
